@@ -18,6 +18,7 @@ EXPLANATION = ("Necessary shape conditions of exactly-once delivery, decided on 
 EXPLANATION += " (R01.9) the payload setter handed to send_with / send_with_async / alloc_with / the handle constructors is invoked, forwarded or handed back on every path of every function that receives one (35 functions): it is never silently dropped, which would publish an uninitialised slot; R01.5 also carries C02's R02.5 (wrap-safe position arithmetic over every function of the two rings), R02.6 and R02.7."
 EXPLANATION += ' R01.4 also requires every answer of consume to be produced after asking the container (no `None` shortcut). Publication outcomes may be encoded as Option / Result / bool or as an integer with one failure constant: what the constant means is read from the producing function.'
 EXPLANATION += " (R01.10) the index-based publish rebuilds its candidate sequence id from the caller's slot index on every retry (C08 R08.3) and the pool re-enqueues a slot only after destroying its payload (C13 R13.1)."
+EXPLANATION += " R01.2 also requires the crossbeam channel's setter-based sends to retry the re-send without bound (spinning_forever / retry_with_async + yielding_forever): the setter already ran, a bounded retry whose outcome is ignored drops the event while the send answers Ok; R01.10 also carries C14's R14.5 / R14.8 (one owner per slot across OgreUnique -> OgreArc)."
 ASSUMPTIONS = ["loss- and duplicate-freedom of AtomicMove's reserve->publish / reserve->release protocol under every interleaving needs schedule exploration and is not decided",
                "crossbeam-channel internals trusted"]
 
